@@ -387,7 +387,7 @@ func (p Param) String() string {
 	for _, f := range p.Fields {
 		parts = append(parts, f.String())
 	}
-	if p.Hidden > 0 {
+	if p.Hidden != 0 {
 		return "In(+unexported){" + strings.Join(parts, "; ") + "}"
 	}
 	if p.Embed {
